@@ -23,7 +23,9 @@ RULE = (
     "must fail with 'load occurs before store' iff some routine-local variable has a reachable load with a store-free "
     "path to it, and the chained TealCompileError's sourceExpr must be a load of one of the flagged variables; when the "
     "analysis flags nothing the program must compile, and (recipes without shared variables) no execution on 2 contexts "
-    "may read an unwritten slot. non-trivial = some variable has a store nested inside a control construct and a load; "
+    "may read an unwritten slot. History family: a helper subroutine is first compiled as part of a Router (or a plain "
+    "program), then a second program with 1..16 fresh variables that also calls the helper leaves one variable unwritten - "
+    "must be rejected whatever was compiled before; with none left out it must compile. non-trivial = some variable has a store nested inside a control construct and a load; "
     "distinct by recipe."
 )
 ASSUMPTIONS = [
@@ -173,11 +175,32 @@ def run_case(case, col=None):
     return out
 
 
+def run_history_case(case, col=None):
+    from .. import c17_hist
+
+    kind, val = c17_hist.run_history(case)
+    out = []
+    if kind == "crash":
+        return [("history-crash:%s" % type(val).__name__, "%r for %s" % (val, case))]
+    if case["left_out"] is None:
+        if kind != "accepted":
+            out.append(("history:rejected-initialised", "every variable is stored before it is read, yet after the history %s the program was rejected: %s" % (case, str(val)[:200])))
+    elif kind == "accepted":
+        out.append(("history:accepted-load-before-store", "variable #%d of %d is read before any store, yet the program compiled after the history %s (a helper subroutine shared with what was compiled before)" % (case["left_out"], case["nv"], {k: case[k] for k in ("pre", "hl", "use_helper", "version")})))
+    elif col:
+        col.cls("history:rejected-as-required")
+    return out
+
+
 def judge(case):
+    if "left_out" in case:
+        return run_history_case(case)
     return run_case(case)
 
 
 def shrinks(case):
+    if "left_out" in case:
+        return []
     return case_shrinks(case)
 
 
@@ -215,3 +238,19 @@ def shard(tier, seedv, k, n, col: Collector):
             col.sample({"main": recipe["main"], "flagged": {str(k2): sorted(v) for k2, v in dataflow.analyse(recipe).items()}})
 
     hyp_run(body, case_strategy(tier), N_EX[tier], seedv, key=lambda c: c["recipe"], col=col)
+
+    def hbody(case):
+        col.case()
+        col.cls("history:pre=%s" % case["pre"])
+        if case["left_out"] is not None and case["pre"] != "none":
+            col.nontriv(sha(case))
+        for b, d in run_history_case(case, col):
+            col.fail(b, d, case)
+
+    hist = st.fixed_dictionaries({
+        "hl": st.integers(1, 4), "nv": st.integers(1, 16), "version": st.sampled_from([5, 6, 8, 10]),
+        "pre": st.sampled_from(["router", "router", "program", "none"]), "use_helper": st.sampled_from([True, True, False]),
+    }).flatmap(lambda d: st.one_of(st.none(), st.integers(0, d["nv"] - 1), st.integers(0, d["nv"] - 1)).map(lambda lo: dict(d, left_out=lo)))
+    from .. import env
+
+    hyp_run(hbody, hist, 40 if tier == "quick" else 1500, env.derive(seedv, "history"), col=col)
